@@ -239,7 +239,16 @@ def run_c16(version, tier, seed, escalate, T):
                         if p not in md or p in EXCL:
                             continue            # the type does not have this attribute in this version
                         if p == "quantity" and src == "quantity":
-                            continue            # packed with the armour/attack class (C17)
+                            # packed with the armour/attack class (C17): a supplied packed quantity (and no pair) has to be what
+                            # the effect hands back as its quantity - the argument may not be dropped for a default pair
+                            if not any(k in supplied for k in AAK):
+                                try:
+                                    gq = comp.quantity
+                                except Exception as e:      # noqa
+                                    gq = "!" + type(e).__name__
+                                if gq != v:
+                                    bad.append(("argument", f"argument quantity={v!r} of {h['name']}({sorted(supplied)}) on an armour/attack attribute is handed back as {gq!r}"))
+                            continue
                         if p in AAK and src is None:
                             continue            # N4 (helper docstring): only used when object_attributes is ATTACK/ARMOR
                         want = [v] if (p == "selected_object_ids" and isinstance(v, int)) else v
